@@ -372,16 +372,9 @@ func (self Reflect) childMap(v reflect.Value) node.Node {
 	return &Basic{
 		Peekable: v.Interface(),
 		OnChoose: func(state *node.Selection, choice *meta.Choice) (m *meta.ChoiceCase, err error) {
-			for _, c := range choice.Cases() {
-				for _, d := range c.DataDefinitions() {
-					mapKey := reflect.ValueOf(d.Ident())
-					mapVal := v.MapIndex(mapKey)
-					if mapVal.IsValid() {
-						return c, nil
-					}
-				}
-			}
-			return nil, nil
+			return chooseCase(choice, func(d meta.Definition) bool {
+				return v.MapIndex(reflect.ValueOf(d.Ident())).IsValid()
+			}), nil
 		},
 		OnChild: func(r node.ChildRequest) (node.Node, error) {
 			mapKey := reflect.ValueOf(r.Meta.Ident())
